@@ -283,7 +283,7 @@ pub fn run(ctx: &mut Ctx) {
     for c in ["step >= 1 (frequency at or above the rate)", "varying frequency", "run longer than 1e5 frames", "exact regime", "seed within a run length of u64::MAX"] {
         ctx.require_class(c);
     }
-    ctx.prop("oscillators/random", ctx.pick(6000, 60_000), osc_strategy(2000), check_osc);
+    ctx.prop("oscillators/random", ctx.pick(20_000, 100_000), osc_strategy(2000), check_osc);
     let long = ctx.pick(1_000_000u64, 20_000_000);
     let long_cases = vec![
         OscCase { rate: 44100f64.to_bits(), hz: vec![1e-7f64.to_bits()], frames: long, exact: false },
